@@ -181,10 +181,16 @@ where
             Err(e) => Err(err_kind(&e)),
             Ok(entries) => {
                 let mut v = Vec::new();
-                for e in entries {
+                for (ei, mut e) in entries.into_iter().enumerate() {
                     let d = e.is_deleted();
                     let t: u64 = e.timestamp().into();
-                    match tagged(&world, tag, e.load()).await {
+                    // the three ways to get at an entry's bytes: load_data alone, load_meta then load, load
+                    let data_only = if plan.faults.is_empty() { Some(tagged(&world, tag, e.load_data()).await.map(|b| b.to_vec()).map_err(|e| err_kind(&e))) } else { None };
+                    if ei % 2 == 1 {
+                        let _ = tagged(&world, tag, e.load_meta()).await;
+                    }
+                    let loaded = tagged(&world, tag, e.load()).await;
+                    match loaded {
                         Ok(rec) => {
                             let mut mm = BTreeMap::new();
                             for m in 0..4u8 {
@@ -194,9 +200,22 @@ where
                                     }
                                 }
                             }
-                            v.push((d, t, Ok(rec.into_data().to_vec()), Some(mm)));
+                            let data = rec.into_data().to_vec();
+                            if let Some(Ok(bytes)) = &data_only {
+                                if bytes != &data {
+                                    world.probe("load_data_disagrees_with_load");
+                                    ctx.violate(&["C05", "C02"], "entry-load-data-mismatch", "Entry::load_data returned other bytes than Entry::load of the same entry", format!("phase={} key={} entry {} ts {} load_data {} load {}", phase, ki, ei, t, short(bytes), short(&data)));
+                                }
+                            }
+                            v.push((d, t, Ok(data), Some(mm)));
                         }
-                        Err(e) => v.push((d, t, Err(err_kind(&e)), None)),
+                        Err(e) => {
+                            if let Some(Ok(bytes)) = &data_only {
+                                world.probe("load_data_disagrees_with_load");
+                                ctx.violate(&["C05", "C02"], "entry-load-data-mismatch", "Entry::load_data returned bytes although Entry::load of the same entry fails", format!("phase={} key={} entry {} ts {} load_data {} load Err({})", phase, ki, ei, t, short(bytes), err_kind(&e)));
+                            }
+                            v.push((d, t, Err(err_kind(&e)), None))
+                        }
                     }
                 }
                 Ok(v)
